@@ -82,7 +82,11 @@ func genC14(t *rapid.T) C14Case {
 		// a line of one family whose every argument is valid (most random lines are refused for one junk
 		// argument; the clauses about accepted lines need accepted lines): tricky but valid values, every form
 		if rapid.Bool().Draw(t, "cleanwatch") {
-			c.Toks = append(c.Toks, Tok{Flag: "w", Val: rapid.SampledFrom([]string{"/etc/passwd", "/tmp/my file", "/a", "/tmp/it's", "/x=y", "/a,b"}).Draw(t, "w"), Form: form()})
+			c.Toks = append(c.Toks, Tok{Flag: "w", Val: rapid.SampledFrom([]string{"/etc/passwd", "/tmp/my file", "/a", "/tmp/it's", "/x=y", "/a,b", ""}).Draw(t, "w"), Form: form()})
+			if rapid.IntRange(0, 4).Draw(t, "secondw") == 0 {
+				// -w twice (also with an empty value in either place): never a rule
+				c.Toks = append(c.Toks, Tok{Flag: "w", Val: rapid.SampledFrom([]string{"/etc/passwd", "", "/b", ""}).Draw(t, "w2"), Form: form()})
+			}
 			for i := 0; i < n-1; i++ {
 				if rapid.Bool().Draw(t, "cleanp") {
 					c.Toks = append(c.Toks, Tok{Flag: "p", Form: form(), Val: rapid.SampledFrom([]string{"r", "wa", "rwxa", "x", "ar", "rr"}).Draw(t, "p")})
@@ -92,6 +96,9 @@ func genC14(t *rapid.T) C14Case {
 			}
 		} else {
 			c.Toks = append(c.Toks, Tok{Flag: rapid.SampledFrom([]string{"a", "A"}).Draw(t, "aA"), Val: rapid.SampledFrom([]string{"always,exit", "exit,always", "never,exit", "exit,never"}).Draw(t, "la"), Form: form()})
+			if rapid.IntRange(0, 5).Draw(t, "seconda") == 0 {
+				c.Toks = append(c.Toks, Tok{Flag: rapid.SampledFrom([]string{"a", "A"}).Draw(t, "aA2"), Val: rapid.SampledFrom([]string{"always,exit", "", "never,task"}).Draw(t, "la2"), Form: form()})
+			}
 			for i := 0; i < n-1; i++ {
 				switch rapid.IntRange(0, 4).Draw(t, "cleantok") {
 				case 0, 1:
